@@ -35,13 +35,17 @@ def make_exception(cls_name, tag):
         return tse.ValidationError('injected ' + tag)
     if cls_name == 'UniqueKeyError':
         return tse.UniqueKeyError('injected ' + tag)
+    if cls_name == 'StopIteration':
+        # e.g. a bare next() on an exhausted iterator inside a user step; inside generators PEP 479 turns it into a
+        # RuntimeError whose __cause__ is this instance (accepted as "wrapped")
+        return StopIteration('injected ' + tag)
     if cls_name == 'DFValidationError':
         return d.ValidationError('res', {'a': 1}, 0, tse.CastError('inner'))
     raise KeyError(cls_name)
 
 
 CLASSES = ['ValueError', 'KeyError', 'AssertionError', 'PrivateError', 'RuntimeError', 'OSError', 'CastError',
-           'CastError_with_errors', 'TSValidationError', 'UniqueKeyError', 'DFValidationError']
+           'CastError_with_errors', 'TSValidationError', 'UniqueKeyError', 'DFValidationError', 'StopIteration']
 
 SHAPES = ['package_fn', 'rows_fn', 'row_fn', 'processor']
 
